@@ -168,7 +168,11 @@ def run(ctx):
 
     # a channel is shed only by the admission decision above: no other code on the accept path manufactures a refusal (e.g. from a remembered earlier refusal)
     adm_ids = {b_.id for b_ in F.with_descendants(adm)}
-    other_err = [(g, s_) for g in reach if g.id not in adm_ids for _, _, s_ in g.aggregates('std::result::Result', 'Err') if not s_.get('expn')]
+    def _from_admission(g, i_, j_):
+        # an Err that merely passes on the admission function's own refusal (explicit match instead of `?`)
+        rs_ = P.root(P._field(('agg', g.id, i_, j_), 0, 0), inline=False)
+        return bool(rs_) and all(P.unbound(x)[0] == 'call' and F.callee_fn(P.call_term(P.unbound(x))) is adm and ('v', 'Err') in p_ for x, p_ in rs_)
+    other_err = [(g, s_) for g in reach if g.id not in adm_ids for i_, j_, s_ in g.aggregates('std::result::Result', 'Err') if not s_.get('expn') and not _from_admission(g, i_, j_)]
     R.ob('C13.admit', ('accept path', 'refusals come only from the admission decision'), not other_err,
          'the only place that refuses a channel is the admission function, under strong_count(entry) >= channels_per_key evaluated for this arrival', [g.loc(s_) for g, s_ in other_err] or [adm.loc(adm.d)])
     # ... and the admission function is consulted for every arrival: the function that builds the TrackedChannel calls it unconditionally
